@@ -68,7 +68,9 @@ Clauses of the statement and where they are:
 * round 5: the walk kernels `_twin_surrogates_s` / `_twin_surrogates_r` statement by statement on the
   expressions regenerated from numerics.pyx (`Model/SurrogatesWalkK.lean`): `walk_kernel_expressions`,
   `walk_kernel_step_is_next`, `walk_kernel_s_is_walk`, `walk_kernel_r_is_walk`,
-  `walk_kernel_s_states_original_and_successor`, `walk_kernel_r_states_original_and_successor`.
+  `walk_kernel_s_states_original_and_successor`, `walk_kernel_r_states_original_and_successor`,
+  `twin_surrogates_source_level`, `rp_twin_surrogates_source_level` (the whole methods with every kernel
+  on the source's expressions).
 -/
 namespace Pyunicorn.Surrogates
 
@@ -674,6 +676,32 @@ theorem rp_twin_surrogates_method (u : Nat → Rat) (hu : ∀ c, 0 ≤ u c ∧ u
     ∃ out, rpTwinSurrogates md ns R emb (floorPick u) = some out ∧ out.length = ns ∧
       ∀ traj ∈ out, TrajSpec emb.length md R emb traj :=
   rpTwinSurrogates_spec (floorPick_good u hu) md ns R emb hR
+
+/-- **`Surrogates.twin_surrogates` on the source's expressions throughout** (embedding kernel,
+`twins()` on `np.empty` work arrays with the `bits`-bit counter and the source's subscripts, the walk
+kernel statement by statement in its `int` variables, read-out `original_data[i, k]`): the
+specification of `twin_surrogates_method`, for every number of embedded states up to `2^bits` -/
+theorem twin_surrogates_source_level (bits : Nat) (hb : 2 ≤ bits) (u : Nat → Rat)
+    (hu : ∀ c, 0 ≤ u c ∧ u c < 1) (n dim delay : Nat)
+    (thr : Rat) (md : Nat) (hd : 1 ≤ dim) (hfit : (dim - 1) * delay ≤ n)
+    (hw : ((n - (dim - 1) * delay : Nat) : Int) ≤ 2 ^ bits)
+    (data : List (List Rat)) (hrows : ∀ r ∈ data, r.length = n)
+    (g : Nat → Nat → Bool) (gn : Nat → Int) :
+    ∃ out, twinSurrogatesSrc bits data dim delay thr md u g gn = some out ∧
+      List.Forall₂ (RowSpec (n - (dim - 1) * delay) dim delay thr md) out data := by
+  rw [twinSurrogatesSrc_eq bits data dim delay thr md u (fun c => (hu c).1) g gn]
+  exact twin_surrogates_loop_level_machine bits hb u hu n dim delay thr md hd hfit hw data hrows g gn
+
+/-- **`RecurrencePlot.twin_surrogates` on the source's expressions throughout** (subscripts of
+`_twins_r`, the walk kernel `_twin_surrogates_r` statement by statement, read-out `embedding[k, :]`),
+for every square recurrence matrix, symmetric or not -/
+theorem rp_twin_surrogates_source_level (u : Nat → Rat) (hu : ∀ c, 0 ≤ u c ∧ u c < 1) (md ns : Nat)
+    (R : List (List Bool)) (emb : List (List Rat)) (hR : R.length = emb.length)
+    (hS : Square R.length R) :
+    ∃ out, rpTwinSurrogatesSrc md ns R emb u = some out ∧ out.length = ns ∧
+      ∀ traj ∈ out, TrajSpec emb.length md R emb traj := by
+  rw [rpTwinSurrogatesSrc_eq md ns R emb hS u (fun c => (hu c).1)]
+  exact rp_twin_surrogates_method u hu md ns R emb hR
 
 example : rpTwinSurrogates 0 1 [[true, false, true], [false, true, false], [true, false, true]]
     [[5], [6], [7]] (fun c m => [2, 0, 1].getD c 0 % m) = some [[[7], [6], [7]]] := by decide +kernel
